@@ -223,16 +223,19 @@ def dense_kernels(ctx, lab, count):
 def timing_failures(rec, to, spec_interval, klen):
     """[(message, replay extras, exceedance in s)] of one real-clock run against the three wall-clock bounds"""
     out = []
-    bound = to + spec_interval + SLACK_WAIT
+    # the slack terms (process start-up, kill/join, Python pre/post-processing) grow with the machine's load; the
+    # timeout and the poll interval do not.  f = 1 on a machine that is not over-subscribed.
+    f = max(1.0, 2.0 * os.getloadavg()[0] / (os.cpu_count() or 1))
+    bound = to + spec_interval + SLACK_WAIT * f
     if rec.wait_wall > bound:
         out.append(("waiting for the LCD workers took %.2fs with timeout %s (bound %.2fs)" % (rec.wait_wall, to, bound),
                     {"wait": rec.wait_wall, "bound": bound, "sleeps": rec.sleeps[:5]}, rec.wait_wall - bound))
     span = (rec.readings[-1] - rec.readings[0]) if len(rec.readings) >= 2 else 0.0
-    if span > to + spec_interval + SLACK_LOOP:
+    if span > to + spec_interval + SLACK_LOOP * f:
         out.append(("the poll loop was left %.2fs after it was entered with timeout %s (bound %.2fs: timeout + %.1fs poll interval + %.1fs)"
-                    % (span, to, to + spec_interval + SLACK_LOOP, spec_interval, SLACK_LOOP),
-                    {"loop_span": span, "sleeps": rec.sleeps[:5]}, span - (to + spec_interval + SLACK_LOOP)))
-    total_bound = bound + 2.0 + PER_PATH * max(1, len(rec.lcd)) * max(1, klen) / 50.0
+                    % (span, to, to + spec_interval + SLACK_LOOP * f, spec_interval, SLACK_LOOP * f),
+                    {"loop_span": span, "sleeps": rec.sleeps[:5]}, span - (to + spec_interval + SLACK_LOOP * f)))
+    total_bound = bound + (2.0 + PER_PATH * max(1, len(rec.lcd)) * max(1, klen) / 50.0) * f
     if rec.wall > total_bound:
         out.append(("LCD analysis took %.2fs with timeout %s (bound %.2fs for %d reported entries)" % (rec.wall, to, total_bound, len(rec.lcd)),
                     {"wall": rec.wall, "bound": total_bound}, rec.wall - total_bound))
